@@ -9,15 +9,29 @@ Local Notation length := List.length.
 
 Definition valid_w (w : Z * chunk) : Prop := 0 <= fst w < TBOUND.
 
+(** [write_x] for a clock reading at which next_date is defined (no panic branch) *)
+Definition write_x_ok (c : config) (s : state) (t : Z) (b : chunk) : state :=
+  let s1 :=
+    match should_rollover s t with
+    | Some _ => refresh c (set_next s (next_usize (rot c) t)) t
+    | None => s
+    end in
+  with_maxstart (do_append s1 (cur s1) t b 0%nat true (maxstart s <=? t)) (Z.max (maxstart s) t).
+
+Lemma write_x_in_range c s t b : t < TBOUND -> write_x c s t b = write_x_ok c s t b.
+Proof.
+  intros Ht. unfold write_x, write_x_ok. rewrite (next_ok_small (rot c) t Ht). destruct (should_rollover s t); reflexivity.
+Qed.
+
 Section Exclusive.
   Variable c : config.
-  Variable pre : list file.
-  Variable tick0 : N.
+  Variable sp : state.            (* what the previous lifetimes (or nobody: [blank pre tick0]) left behind *)
   Variable t0 : Z.
   Hypothesis Ht0 : 0 <= t0 < TBOUND.
-  Hypothesis Hpre : PreOK pre tick0.
+  Hypothesis Hsp : GoodFS sp.
   Let k := rot c.
-  Let s0 := init c pre tick0 t0.
+  Let s0 := restart c sp t0.
+  Ltac base := unfold s0, restart; rewrite (next_ok_small (rot c) t0 (proj2 Ht0)); destruct (create _ _ _).
   Let pfile (t : Z) : string := period_file c t0 t.
 
   Definition XInv (s : state) : Prop :=
@@ -25,7 +39,9 @@ Section Exclusive.
     t0 <= maxstart s < TBOUND /\
     (k = Never -> next s = 0 /\ cur s = join_date c t0) /\
     (k <> Never -> exists tl, 0 <= tl <= maxstart s /\ next s = next_usize k tl /\ cur s = join_date c tl /\ maxstart s < next s) /\
-    (forall l, In l (lands s) -> l_nd l = true -> l_file l = pfile (l_t l)).
+    (forall l, In l (lands s) -> l_life l = life s -> l_nd l = true -> l_file l = pfile (l_t l)) /\
+    life s = S (life sp) /\
+    (forall l, In l (lands s) -> (l_life l <= life s)%nat).
 
   Lemma pfile_never t : k = Never -> pfile t = join_date c t0.
   Proof. intros H. unfold pfile, period_file. fold k. rewrite H. reflexivity. Qed.
@@ -34,19 +50,21 @@ Section Exclusive.
 
   Lemma XInv_init : XInv s0.
   Proof.
-    unfold XInv. split; [apply FSInv_init; auto|].
-    unfold s0, init. destruct (create _ _ _). simpl. split; [lia|split; [|split]].
+    unfold XInv. split; [apply FSInv_restart; [apply next_ok_small; apply Ht0|apply Hsp|apply Hsp]|].
+    base. simpl. split; [lia|split; [|split; [|split; [|split]]]].
     - intros Hk. unfold k in Hk. rewrite Hk. auto.
     - intros Hk. exists t0. pose proof (next_usize_gt k t0 Hk Ht0). repeat split; auto; lia.
-    - tauto.
+    - intros x Hx E. destruct Hsp as [_ [_ HE]]. specialize (HE x Hx). lia.
+    - reflexivity.
+    - intros x Hx. destruct Hsp as [_ [_ HE]]. specialize (HE x Hx). lia.
   Qed.
 
   Lemma FSInv_set_next s n : FSInv c s -> FSInv c (set_next s n).
   Proof. apply FSInv_ext; reflexivity. Qed.
 
-  Lemma write_x_fs s t b : FSInv c s -> FSInv c (write_x c s t b).
+  Lemma write_x_fs s t b : t < TBOUND -> FSInv c s -> FSInv c (write_x c s t b).
   Proof.
-    intros F. unfold write_x.
+    intros Ht F. rewrite write_x_in_range by assumption. unfold write_x_ok.
     set (s1 := match should_rollover s t with Some _ => refresh c (set_next s (next_usize (rot c) t)) t | None => s end).
     assert (F1 : FSInv c s1) by (unfold s1; destruct (should_rollover s t); [apply FSInv_refresh, FSInv_set_next|]; auto).
     eapply FSInv_ext; [..|apply (FSInv_append c s1 (cur s1) t b 0%nat true (maxstart s <=? t) F1)]; try reflexivity. apply F1.
@@ -54,29 +72,34 @@ Section Exclusive.
 
   Lemma XInv_write s t b : XInv s -> 0 <= t < TBOUND -> XInv (write_x c s t b).
   Proof.
-    intros [F [M [XN [XR XL]]]] Ht. split; [apply write_x_fs; auto|].
-    unfold write_x. destruct (should_rollover s t) as [n|] eqn:Hsr.
+    intros [F [M [XN [XR [XL [XE XB]]]]]] Ht. split; [apply write_x_fs; auto; apply Ht|].
+    rewrite write_x_in_range by apply Ht. unfold write_x_ok. destruct (should_rollover s t) as [n|] eqn:Hsr.
     - (* rotation *)
       destruct (should_rollover_some s t n Ht Hsr) as [E1 [E2 E3]].
       assert (Hk : k <> Never) by (intro Hk; destruct (XN Hk); congruence).
       destruct (XR Hk) as [tl [H1 [H2 [H3 H4]]]].
       pose proof (next_usize_gt k t Hk Ht) as Hgt.
       destruct (refresh_fields c (set_next s (next_usize (rot c) t)) t) as [R1 [R2 [_ [_ [_ [_ [_ [R8 [_ [_ [_ R12]]]]]]]]]]].
-      simpl. rewrite ?R1, ?R2, ?R8, ?R12. simpl.
-      split; [lia|split; [intros; congruence|split]].
+      destruct (refresh_life c (set_next s (next_usize (rot c) t)) t) as [RL _].
+      simpl. rewrite ?R1, ?R2, ?R8, ?R12, ?RL. simpl.
+      split; [lia|split; [intros; congruence|split; [|split; [|split]]]].
       + intros _. exists t. fold k. repeat split; auto; lia.
-      + intros l [<-|Hl]; simpl; [intros _; rewrite pfile_rot; auto|apply XL; auto].
+      + intros l [<-|Hl]; simpl; [intros _ _; rewrite pfile_rot; auto|apply XL; auto].
+      + exact XE.
+      + intros l [<-|Hl]; [simpl; lia|apply XB; exact Hl].
     - (* no rotation *)
-      simpl. split; [lia|split; [exact XN|split]].
+      simpl. split; [lia|split; [exact XN|split; [|split; [|split]]]].
       + intros Hk. destruct (XR Hk) as [tl [H1 [H2 [H3 H4]]]]. exists tl.
         destruct (should_rollover_none s t Ht Hsr) as [E|E]; [pose proof (next_usize_gt k tl Hk); lia|].
         repeat split; auto; lia.
-      + intros l [<-|Hl]; simpl; [|apply XL; auto]. intros Hnd. apply Z.leb_le in Hnd.
+      + intros l [<-|Hl]; simpl; [|apply XL; auto]. intros _ Hnd. apply Z.leb_le in Hnd.
         destruct (rotation_eq_dec k Never) as [Hk|Hk].
         * rewrite pfile_never by auto. apply XN; auto.
         * destruct (XR Hk) as [tl [H1 [H2 [H3 H4]]]]. rewrite H3, <- (pfile_rot tl Hk). symmetry.
           apply period_file_same; try lia. intros _. fold k. rewrite <- H2.
           destruct (should_rollover_none s t Ht Hsr) as [E|E]; [pose proof (next_usize_gt k tl Hk); lia|auto].
+      + exact XE.
+      + intros l [<-|Hl]; [simpl; lia|apply XB; exact Hl].
   Qed.
 
   Lemma XInv_run : forall ws s, XInv s -> Forall valid_w ws -> XInv (run_x c s ws).
@@ -85,54 +108,72 @@ Section Exclusive.
     apply XInv_write; auto.
   Qed.
 
-  (** every write whose clock reading is not behind an earlier one lands in its period's file *)
+  (** every write of this lifetime whose clock reading is not behind an earlier one lands in its period's file *)
   Theorem x_lands_in_period : forall ws, Forall valid_w ws ->
-    forall l, In l (lands (run_x c s0 ws)) -> l_nd l = true -> l_file l = pfile (l_t l).
-  Proof. intros ws V. apply (XInv_run ws s0 XInv_init V). Qed.
-
-  (** the log of landings is exactly the list of writes, in order; every flag of a write under a
-      non-decreasing clock is set *)
-  Lemma run_x_lands : forall ws s,
-    map (fun l => (l_t l, l_buf l)) (rev (lands (run_x c s ws))) = map (fun l => (l_t l, l_buf l)) (rev (lands s)) ++ ws.
+    forall l, In l (lands (run_x c s0 ws)) -> l_life l = S (life sp) -> l_nd l = true -> l_file l = pfile (l_t l).
   Proof.
-    induction ws as [|[t b] ws IH]; simpl; intros s; [rewrite app_nil_r; reflexivity|].
-    rewrite IH. unfold write_x. simpl. rewrite map_app. simpl. rewrite <- app_assoc. simpl.
-    destruct (should_rollover s t); [|reflexivity].
-    destruct (refresh_fields c (set_next s (next_usize (rot c) t)) t) as [_ [_ [_ [_ [_ [_ [_ [R8 _]]]]]]]]. rewrite R8. reflexivity.
+    intros ws V l Hl E. destruct (XInv_run ws s0 XInv_init V) as [_ [_ [_ [_ [XL [XE _]]]]]]. apply XL; auto. congruence.
   Qed.
 
-  Lemma run_x_nd : forall ws s, (forall u, In u (map fst ws) -> maxstart s <= u) -> StronglySorted Z.le (map fst ws) ->
-    (forall l, In l (lands s) -> l_nd l = true) -> forall l, In l (lands (run_x c s ws)) -> l_nd l = true.
+  (** the landings of a run: the new ones are exactly the writes, in order, each tagged with this lifetime and
+      flagged "not behind an earlier reading"; the older ones are untouched underneath *)
+  Fixpoint annotate (m : Z) (ws : list (Z * chunk)) : list (Z * chunk * bool) :=
+    match ws with
+    | [] => []
+    | w :: r => (fst w, snd w, m <=? fst w) :: annotate (Z.max m (fst w)) r
+    end.
+
+  Lemma write_x_lands s t b : t < TBOUND ->
+    lands (write_x c s t b) =
+    {| l_file := cur (write_x c s t b); l_t := t; l_buf := b; l_tid := 0%nat; l_clean := true; l_nd := maxstart s <=? t; l_life := life s |} :: lands s /\
+    maxstart (write_x c s t b) = Z.max (maxstart s) t /\ life (write_x c s t b) = life s.
   Proof.
-    induction ws as [|[t b] ws IH]; simpl; intros s Hm Hs Hl; auto. inversion Hs; subst. rewrite Forall_forall in H2.
-    apply IH; auto.
-    - intros u Hu. unfold write_x. simpl. specialize (Hm u (or_intror Hu)). specialize (H2 u Hu). lia.
-    - intros l. unfold write_x. simpl. intros [<-|Hin]; simpl.
-      + apply Z.leb_le. apply Hm; auto.
-      + apply Hl. destruct (should_rollover s t); auto.
-        destruct (refresh_fields c (set_next s (next_usize (rot c) t)) t) as [_ [_ [_ [_ [_ [_ [_ [R8 _]]]]]]]]. rewrite R8 in Hin. exact Hin.
+    intros Ht. rewrite write_x_in_range by assumption. unfold write_x_ok. simpl.
+    destruct (should_rollover s t); [|auto].
+    destruct (refresh_fields c (set_next s (next_usize (rot c) t)) t) as [_ [_ [_ [_ [_ [_ [_ [R8 _]]]]]]]].
+    destruct (refresh_life c (set_next s (next_usize (rot c) t)) t) as [RL _]. rewrite R8, RL. simpl. auto.
   Qed.
 
-  (** the property's own wording: under a non-decreasing clock EVERY buffer is in its period's file *)
-  Theorem x_lands_nondecreasing : forall ws, Forall valid_w ws -> StronglySorted Z.le (t0 :: map fst ws) ->
-    map (fun l => (l_t l, l_buf l)) (rev (lands (run_x c s0 ws))) = ws /\
-    forall l, In l (lands (run_x c s0 ws)) -> l_file l = pfile (l_t l).
+  Lemma run_x_new : forall ws s, Forall valid_w ws ->
+    exists new, lands (run_x c s ws) = new ++ lands s /\
+                map (fun l => (l_t l, l_buf l, l_nd l)) (rev new) = annotate (maxstart s) ws /\
+                (forall l, In l new -> l_life l = life s) /\ life (run_x c s ws) = life s.
   Proof.
-    intros ws V S. split.
-    - rewrite run_x_lands. unfold s0, init. destruct (create _ _ _). reflexivity.
-    - intros l Hl. apply (x_lands_in_period ws V l Hl). inversion S; subst. rewrite Forall_forall in H2.
-      apply (run_x_nd ws s0); auto.
-      + intros u Hu. unfold s0, init. destruct (create _ _ _). simpl. auto.
-      + unfold s0, init. destruct (create _ _ _). simpl. tauto.
+    induction ws as [|[t b] ws IH]; simpl; intros s V.
+    - exists []. simpl. repeat split; auto. intros l [].
+    - inversion V; subst. destruct H1 as [_ Ht]. simpl in Ht.
+      destruct (write_x_lands s t b Ht) as [EL [EM EF]].
+      destruct (IH (write_x c s t b) H2) as [new [E1 [E2 [E3 E4]]]].
+      exists (new ++ [{| l_file := cur (write_x c s t b); l_t := t; l_buf := b; l_tid := 0%nat; l_clean := true;
+                         l_nd := maxstart s <=? t; l_life := life s |}]).
+      split; [rewrite E1, EL, <- app_assoc; reflexivity|]. split; [|split].
+      + rewrite rev_app_distr. simpl. rewrite E2, EM. reflexivity.
+      + intros l Hl. apply in_app_or in Hl. destruct Hl as [Hl|[<-|[]]]; [rewrite (E3 l Hl); exact EF|reflexivity].
+      + congruence.
   Qed.
 
-  (** nothing lost, exactly once, in order *)
+  Lemma annotate_sorted : forall ws m, (forall u, In u (map fst ws) -> m <= u) -> StronglySorted Z.le (map fst ws) ->
+    forall x, In x (annotate m ws) -> snd x = true.
+  Proof.
+    induction ws as [|[t b] ws IH]; simpl; intros m Hm Hs x Hx; [tauto|]. inversion Hs; subst. rewrite Forall_forall in H2.
+    destruct Hx as [<-|Hx]; simpl; [apply Z.leb_le; auto|].
+    apply (IH (Z.max m t)); auto. intros u Hu. specialize (Hm u (or_intror Hu)). specialize (H2 u Hu). lia.
+  Qed.
+
+  (** nothing lost, exactly once, in order; what the lifetime leaves behind is fit for the next appender *)
   Theorem x_never_lost : forall ws, Forall valid_w ws ->
     Stored (run_x c s0 ws) /\ in_dir (cur (run_x c s0 ws)) (dir (run_x c s0 ws)) = true /\
-    map (fun l => (l_t l, l_buf l)) (rev (lands (run_x c s0 ws))) = ws.
+    (exists new, lands (run_x c s0 ws) = new ++ lands sp /\
+                 map (fun l => (l_t l, l_buf l, l_nd l)) (rev new) = annotate t0 ws /\
+                 (forall l, In l new -> l_life l = S (life sp))) /\
+    GoodFS (run_x c s0 ws).
   Proof.
-    intros ws V. destruct (XInv_run ws s0 XInv_init V) as [[HD [HC [HS HL]]] _]. repeat split; auto.
-    rewrite run_x_lands. unfold s0, init. destruct (create _ _ _). reflexivity.
+    intros ws V. destruct (XInv_run ws s0 XInv_init V) as [[HD [HC [HS HL]]] [_ [_ [_ [_ [XE XB]]]]]].
+    split; [exact HS|split; [exact HC|split; [|split; [exact HD|split; [exact HS|exact XB]]]]].
+    destruct (run_x_new ws s0 V) as [new [E1 [E2 [E3 E4]]]]. exists new.
+    assert (L0 : lands s0 = lands sp /\ maxstart s0 = t0 /\ life s0 = S (life sp)) by (base; simpl; auto).
+    destruct L0 as [L1 [L2 L3]]. rewrite L1 in E1. rewrite L2 in E2. split; [exact E1|split; [exact E2|]].
+    intros l Hl. rewrite (E3 l Hl). exact L3.
   Qed.
 
   (** time standing still or stepping back never rotates *)
@@ -153,18 +194,20 @@ Section Exclusive.
     split; auto. unfold write_x. rewrite E. simpl. repeat split; auto. apply append_names.
   Qed.
 
-  (** and every earlier clock reading is below next_date, so "backwards" means behind ANY earlier write *)
+  (** and every earlier clock reading of this lifetime is at most [maxstart], so "backwards" means behind ANY of them *)
   Theorem x_maxstart_is_max : forall ws, Forall valid_w ws ->
     forall u, In u (t0 :: map fst ws) -> u <= maxstart (run_x c s0 ws).
   Proof.
-    intros ws V. assert (G : forall ws s, (forall u, In u (map fst ws) \/ u <= maxstart s -> u <= maxstart (run_x c s ws))).
-    { induction ws0 as [|[t b] ws0 IH]; simpl; intros s u [Hu|Hu]; try tauto.
-      - destruct Hu as [<-|Hu]; [apply IH; right; unfold write_x; simpl; lia|apply IH; auto].
-      - apply IH. right. unfold write_x. simpl. lia. }
-    intros u [<-|Hu]; apply G; auto. right. unfold s0, init. destruct (create _ _ _). simpl. lia.
+    intros ws V.
+    assert (G : forall ws s, Forall valid_w ws -> (forall u, In u (map fst ws) \/ u <= maxstart s -> u <= maxstart (run_x c s ws))).
+    { induction ws0 as [|[t b] ws0 IH]; simpl; intros s V0 u [Hu|Hu]; try tauto; inversion V0; subst;
+        destruct H1 as [_ Ht]; simpl in Ht; destruct (write_x_lands s t b Ht) as [_ [EM _]].
+      - destruct Hu as [<-|Hu]; [apply IH; auto; right; lia|apply IH; auto].
+      - apply IH; auto. right. lia. }
+    intros u [<-|Hu]; apply G; auto. right. base. simpl. lia.
   Qed.
 
-  (** with a file limit, from the first rotation on *)
+  (** with a file limit, from the first rotation of this lifetime on - also when the lifetime starts above the limit *)
   Theorem x_prune_limit : forall ws, Forall valid_w ws -> Limit c (run_x c s0 ws).
   Proof. intros ws V. apply (XInv_run ws s0 XInv_init V). Qed.
 End Exclusive.
